@@ -11,7 +11,7 @@ import (
 	"verifharness/internal/opsim"
 )
 
-var profile = opsim.Profile{Name: "c17", MaxHooks: 3, Steps: 24, PFail: 25, PHold: 50, PStop: 9, AfterStop: 10, V0: false}
+var profile = opsim.Profile{Name: "c17", MaxHooks: 3, Steps: 24, PFail: 35, PHold: 50, PStop: 9, AfterStop: 10, V0: false, PWait: 60, PShort: 35}
 
 func init() { opsim.RegisterProfile(profile) }
 
@@ -22,6 +22,12 @@ func Corpus() []opsim.Scenario {
 		{Cfg: cfg, Acts: []opsim.Action{{Kind: "Boot"}, {Kind: "Tick", C: 1}, {Kind: "Tick", C: 1}, {Kind: "Tick", C: 2}, {Kind: "Stop"}, {Kind: "Tick", C: 2}, {Kind: "Finish", Q: 1, Ok: true}, {Kind: "Finish", Q: 2, Ok: false}, {Kind: "Tick", C: 1}}},
 		// stop with empty queues
 		{Cfg: cfg, Acts: []opsim.Action{{Kind: "Boot"}, {Kind: "Stop"}, {Kind: "Tick", C: 1}, {Kind: "Tick", C: 2}}},
+		// stop while queue 1 waits in a long back-off delay: the end of the delay and later ticks start nothing
+		{Cfg: cfg, Acts: []opsim.Action{{Kind: "Boot"}, {Kind: "Tick", C: 1}, {Kind: "Tick", C: 1}, {Kind: "FinishWait", Q: 1}, {Kind: "Tick", C: 1}, {Kind: "Stop"}, {Kind: "Elapse", Q: 1}, {Kind: "Tick", C: 1}}},
+		// the same with a delay shorter than the wait loop's check interval, Shutdown landing inside it
+		{Cfg: cfg, Acts: []opsim.Action{{Kind: "Boot"}, {Kind: "Tick", C: 1}, {Kind: "Tick", C: 2}, {Kind: "FinishWait", Q: 1, Short: true}, {Kind: "Stop"}, {Kind: "Elapse", Q: 1}, {Kind: "Finish", Q: 2, Ok: true}}},
+		// a short delay that ends by itself, then stop inside the retried execution
+		{Cfg: cfg, Acts: []opsim.Action{{Kind: "Boot"}, {Kind: "Tick", C: 1}, {Kind: "FinishWait", Q: 1, Short: true}, {Kind: "Elapse", Q: 1}, {Kind: "Stop"}, {Kind: "Finish", Q: 1, Ok: true}}},
 		// stop during start-up
 		{Cfg: []opsim.Hook{{Id: 1, Startup: new(int), Kube: []opsim.KB{{Name: 1, ExecSync: true}}}},
 			Acts: []opsim.Action{{Kind: "Boot"}, {Kind: "Stop"}, {Kind: "Finish", Q: 0, Ok: true}}},
@@ -49,7 +55,7 @@ func Gen(r *core.Rng, tier string) ([]core.In[opsim.Scenario], bool) {
 
 var Driver = core.Driver[opsim.Scenario, opsim.Trace]{
 	Spec: core.Spec{Property: "C17", Imports: []string{"Op_Model", "Op_Corr", "C17_Spec", "C17_Corr"}, Corr: "C17_Corr", ShrinkKey: "acts",
-		Rule: "operator-level scenarios (see C03) in which Shutdown() is requested at a random step (9% per step) and up to 10 further ticks / kube events / ends of open executions follow; non-trivial = >=4 actions of >=2 kinds with >=2 executions; distinct = distinct (config, action list)"},
+		Rule: "operator-level scenarios (see C03) in which Shutdown() is requested at a random step (9% per step) and up to 10 further ticks / kube events / ends of open executions follow; 60% of the failing executions put their queue into a positive back-off delay (a long one, ended by the harness, or - 35% - one shorter than the wait loop's check interval, followed at once by Shutdown or by its natural end), so Shutdown also lands while workers wait in a back-off delay; non-trivial = >=4 actions of >=2 kinds with >=2 executions; distinct = distinct (config, action list)"},
 	Gen:      Gen,
 	Run:      opsim.RunScenario,
 	Render:   func(in opsim.Scenario, obs *opsim.Trace, crash string) core.Case { return opsim.Render(in, obs, crash) },
